@@ -21,6 +21,9 @@ SPEC = {'id': 'C08',
               (_P, _N + 'strip_keeps_others'),
               (_P, _N + 'strip_sublist'),
               (_P, _N + 'strip_idempotent'),
+              (_P, _N + 'strip_append'),
+              (_P, _N + 'strip_unchanged_iff'),
+              (_P, _N + 'strip_count'),
               (_P, _N + 'strip_survivor_not_local'),
               (_P, _N + 'stripSdp_untouched'),
               (_P, _N + 'stripSdp_attrs'),
